@@ -2,7 +2,7 @@ package scen
 
 // C14 — all input front ends are equivalent views of the same record.
 // One abstract record × tag configuration × ≤k focus units is rendered
-// through all seven front ends in the same execution; every rendering must give
+// through all eight front ends in the same execution; every rendering must give
 // the same issues (paths normalised to field identity) and the same
 // destination as the Go-map rendering, and must agree with the reference
 // model evaluated on that front end's view.
@@ -161,7 +161,7 @@ func c14Scenario(tier string, tags map[string]int, focus []string, deep bool, el
 func init() {
 	Register(&Prop{
 		ID:    "C14",
-		Rule:  "one execution = one abstract record case (same enumeration as C10: tag assignments × focus units over Required × tests × {valid, missing, nil, empty, failing, uncoercible}) rendered through ALL seven front ends (Go map, zjson, zhttp JSON body with and without a known length, form body, query string, environment) and parsed on the real code under the same field visit orders; every rendering must agree with the documented semantics of its front end and with the Go-map rendering (issues with paths normalised to field identity, destination); non-trivial = every expressible case; distinct = distinct (tags, per-front-end issue sets)",
+		Rule:  "one execution = one abstract record case (same enumeration as C10: tag assignments × focus units over Required × tests × {valid, missing, nil, empty, failing, uncoercible}) rendered through ALL eight front ends (Go map, zjson, zjson on a seekable reader positioned after a consumed frame header, zhttp JSON body with and without a known length, form body, query string, environment) and parsed on the real code under the same field visit orders; every rendering must agree with the documented semantics of its front end and with the Go-map rendering (issues with paths normalised to field identity, destination); non-trivial = every expressible case; distinct = distinct (tags, per-front-end issue sets)",
 		Floor: 50,
 		Bound: func(tier string) string {
 			if tier == "thorough" {
